@@ -1,6 +1,7 @@
 package sim
 
 import (
+	"io/fs"
 	"context"
 	"errors"
 	"fmt"
@@ -13,7 +14,8 @@ var (
 	ErrInjStore    = errors.New("sim: injected store failure")
 	ErrInjAckLost  = errors.New("sim: injected store ack lost")
 	ErrInjLoad     = errors.New("sim: injected load failure")
-	ErrInjNotFound = errors.New("sim: object not found")
+	// like the file store's, the not-found error says so in the standard way too
+	ErrInjNotFound = fmt.Errorf("sim: object not found (%w)", fs.ErrNotExist)
 )
 
 // DiskEvent is one entry of the disk's event log.
